@@ -64,16 +64,6 @@ func WithMaxInterval(maxInterval time.Duration) Option {
 	}
 }
 
-func getIndex(index *int64, n int64) int64 {
-	if n > 1 {
-		if i := atomic.AddInt64(index, 1); i < n {
-			return i
-		}
-		atomic.StoreInt64(index, 0)
-	}
-	return 0
-}
-
 // FailoverConfig for cluster.
 func FailoverConfig(options ...Option) (config Config) {
 	config.Retry = 10
@@ -82,11 +72,17 @@ func FailoverConfig(options ...Option) (config Config) {
 	for _, option := range options {
 		option(&config)
 	}
-	var index int64
 	config.OnFailure = func(ctx context.Context) {
 		clientContext := core.GetClientContext(ctx)
 		urls := clientContext.Client().URLs
-		clientContext.URL = urls[getIndex(&index, int64(len(urls)))]
+		if n := len(urls); n > 1 {
+			// move on from the server that has just failed
+			i := 0
+			for i < n && urls[i] != clientContext.URL {
+				i++
+			}
+			clientContext.URL = urls[(i+1)%n]
+		}
 	}
 	config.OnRetry = func(ctx context.Context) time.Duration {
 		clientContext := core.GetClientContext(ctx)
